@@ -45,7 +45,7 @@ def _e2(prop):
     return f
 
 
-EXTRA = {"C18": _e2("C18"), "C16": _e2("C16"), "C06": _e2("C06")}
+EXTRA = {"C18": _e2("C18"), "C16": _e2("C16"), "C06": _e2("C06"), "C03": _e2("C03"), "C02": _e2("C02"), "C01": _e2("C01")}
 
 kanirun.META["C16"] = {
     "bounds": "E1: every constructor path for each concrete length 0,1,3 (quick) / 8 (thorough) with fully symbolic contents, 3 handles dropped in every order; from_utf8 for ALL byte strings of each length 0..4; Eq/Ord/Hash for pairs of lengths (1,2),(2,2) (quick) / (3,3) (thorough), symbolic hash seed; E2: 2 (quick) / 3 (thorough) threads each [clone; read; drop;] read; drop, symbolic capacity, all interleavings",
@@ -83,8 +83,8 @@ kanirun.META["C17"] = {
     "assumptions": COMMON_ASSUME + ["once_cell::sync::OnceCell serialises initialisers and publishes the value with release/acquire (trusted contract)"],
 }
 kanirun.META["C03"] = {
-    "bounds": "ErrorKind::or: all 4x4 kind pairs, folds over <= 3 extensions; load_from_source: extension lists of length 0..3, each extension absent/unreadable/undecodable/decodable, content <= 2 bytes, with and without default_value; FileContent: all three variants",
-    "outside": "shipped serde/image/sound loaders; large files; whitespace trimming beyond the stated content bound; cache-level compounds beyond depth 2",
+    "bounds": "ErrorKind::or: all 4x4 kind pairs, folds over <= 3 extensions; load_from_source: extension lists of length 0..3, each extension absent/unreadable/undecodable/decodable, content <= 2 bytes, with and without default_value; FileContent: all three variants; E2 (MIR -> SMT): the extension loop of load_from_source with ErrorKind::or inlined, n <= 3 (quick) / 8 (thorough) declared extensions, every Ok / Io / Conversion outcome per extension, io::ErrorKind an arbitrary 64-bit value",
+    "outside": "the body of the load_with_ext closure in the E2 query (environment: returns Ok, Err(Io) or Err(Conversion)); shipped serde/image/sound loaders; large files; whitespace trimming beyond the stated content bound; cache-level compounds beyond depth 2",
     "assumptions": COMMON_ASSUME,
 }
 
@@ -113,12 +113,12 @@ kanirun.META["C14"] = {
 }
 
 kanirun.META["C01"] = {
-    "bounds": "map level: one shard, ids {a,b}, <= 3 insertions incl. a same-key race (device S3: the racing thread's whole operation runs at the only unlocked point), adversarial relocation of table entries on every insert, all 64-bit values; shard selection: symbolic seed (see harness list)",
+    "bounds": "map level: one shard, ids {a,b}, <= 3 insertions incl. a same-key race (device S3: the racing thread's whole operation runs at the only unlocked point), adversarial relocation of table entries on every insert, all 64-bit values; shard selection: symbolic seed (see harness list); E2 (MIR -> SMT): AssetMap::new + get_shard + get_shard_mut, available_parallelism = any p in 1..=2^20 or an error, any 64-bit key hash: the &self and &mut self paths pick the same in-range shard and never panic",
     "outside": "real hashbrown (model table), more than 2 racers, std locks, ahash-off build, real scheduling; load-level races (cache-level harnesses are thorough-only)",
     "assumptions": COMMON_ASSUME,
 }
 kanirun.META["C02"] = {
-    "bounds": "map level: sharded and local map, ids {a,b}, one stored type plus one foreign type, scripts of <= 4 operations from {insert, get, contains, take, remove, clear} with a solver-chosen branch, all 64-bit values",
+    "bounds": "map level: sharded and local map, ids {a,b}, one stored type plus one foreign type, scripts of <= 4 operations from {insert, get, contains, take, remove, clear} with a solver-chosen branch, all 64-bit values; E2 (MIR -> SMT): AssetMap::new + get_shard + get_shard_mut, available_parallelism = any p in 1..=2^20 or an error, any 64-bit key hash: the &self and &mut self paths pick the same in-range shard and never panic",
     "outside": "longer sequences, larger alphabets, directory loads (C11), load / load_owned through a Source (thorough only)",
     "assumptions": COMMON_ASSUME,
 }
